@@ -70,7 +70,8 @@ struct Case {
 }
 
 const SHAPES: &[&str] = &["x.S", "x.y.S", ".x.S", "d.ir/x.S", "sub/dir/My File.S", "X.UPPER(S)", "x.S.bak", "xS", "x.S~", "x.S.S", "S/x.txt"];
-const MAPPINGS: &[&str] = &["none", "new=S", "other=S", "S=S", "S=different"];
+// `Whole=S`: the key is a whole file name without any dot (`-E Buildfile=S`).
+const MAPPINGS: &[&str] = &["none", "new=S", "other=S", "S=S", "S=different", "Whole=S"];
 const CONTENTS: &[&str] = &["probe", "unbalanced", "garbage"];
 
 fn name_for(shape: &str, suffix: &str) -> String {
@@ -103,6 +104,16 @@ fn check_case(case: &Case, sink: &Sink) {
             extra.push(("new".into(), case.suffix.into()));
             if case.shape == "x.S" || case.shape == "x.y.S" || case.shape == "d.ir/x.S" {
                 name = name_for(case.shape, "new");
+            }
+        }
+        "Whole=S" => {
+            // The file is called `Buildfile` (in the shape's directory), with no dot at all.
+            extra.push(("Buildfile".into(), case.suffix.into()));
+            if case.shape == "x.S" || case.shape == "d.ir/x.S" || case.shape == "sub/dir/My File.S" {
+                name = match name.rsplit_once('/') {
+                    Some((dir, _)) => format!("{dir}/Buildfile"),
+                    None => "Buildfile".to_string(),
+                };
             }
         }
         "other=S" => extra.push(("other".into(), case.suffix.into())),
@@ -228,6 +239,9 @@ struct PairCase {
     second: usize,
     /// The second file is hidden from the walk and named by the diff only.
     second_from_diff: bool,
+    /// The diff shows the second file as renamed from the first name (which no longer exists)
+    /// and edited in its first content line; `**` as path argument.
+    renamed: bool,
 }
 
 fn check_pair(case: &PairCase, sink: &Sink) {
@@ -236,7 +250,11 @@ fn check_pair(case: &PairCase, sink: &Sink) {
     if a.name == b.name {
         return;
     }
-    let input = json!({"pair": [a.name, b.name], "second_from_diff": case.second_from_diff});
+    let input = json!({"pair": [a.name, b.name], "second_from_diff": case.second_from_diff, "renamed": case.renamed});
+    if case.renamed {
+        check_rename(a, b, &input, sink);
+        return;
+    }
     let mut files = vec![(a.name.clone(), a.text.clone())];
     let mut unwalked = Vec::new();
     let mut diff = None;
@@ -273,6 +291,62 @@ fn check_pair(case: &PairCase, sink: &Sink) {
                 }
             }
             sink.outcome(if agree { "pair:agree" } else { "pair:differ" });
+        }
+    }
+    sink.nontrivial();
+}
+
+/// `old` was renamed to `new` and one content line of the first block was edited: the diff's
+/// section reads `--- a/<old>` / `+++ b/<new>`. Whatever grammar the old name would select, only
+/// the new file exists and is read, with the grammar of its own name, and its first block is
+/// content-modified.
+fn check_rename(old: &PairName, new: &PairName, input: &Value, sink: &Sink) {
+    let Some(rendered) = &new.rendered else { return };
+    let Some(first) = rendered.blocks.iter().find(|b| !b.same_comment && b.content_end > b.content_start) else { return };
+    // The first line that lies entirely inside the first block's content.
+    let line_start = match rendered.text[first.content_start..first.content_end].find('\n') {
+        Some(i) => first.content_start + i + 1,
+        None => return,
+    };
+    if line_start >= first.content_end {
+        return;
+    }
+    let line_end = rendered.text[line_start..].find('\n').map(|i| line_start + i).unwrap_or(rendered.text.len());
+    if line_end > first.content_end || line_end == line_start {
+        return;
+    }
+    let line_no = rendered.text[..line_start].matches('\n').count() + 1;
+    let line = &rendered.text[line_start..line_end];
+    let diff = format!(
+        "diff --git a/{o} b/{n}\nsimilarity index 90%\nrename from {o}\nrename to {n}\nindex 1111111..2222222 100644\n--- a/{o}\n+++ b/{n}\n@@ -{line_no} +{line_no} @@\n-previous text of the line\n+{line}\n",
+        o = old.name,
+        n = new.name
+    );
+    sink.exec();
+    let outcome = librun::run(&Input { files: vec![(new.name.clone(), new.text.clone())], diff: Some(diff), list_only: true, globs: vec!["**".into()], ..Default::default() });
+    match &outcome {
+        Outcome::Panic { message } => sink.fail(format!("C16:rename:panic:{}", first_line(message)), format!("{} renamed to {}: panic {message}", old.name, new.name), input.clone()),
+        Outcome::Error { message, .. } => {
+            sink.outcome("rename:error");
+            sink.fail("C16:rename:error", format!("{} renamed to {} (only the latter exists): {}", old.name, new.name, first_line(message)), input.clone());
+        }
+        Outcome::Report { blocks, .. } => {
+            let found: Vec<_> = blocks.iter().filter(|bl| bl.file.to_string_lossy() == new.name).cloned().collect();
+            let mut ok = true;
+            for (kind, msg) in c03::compare(rendered, &found, false) {
+                ok = false;
+                sink.fail(format!("C16:rename:{kind}"), format!("{} renamed to {}: {msg}", old.name, new.name), input.clone());
+            }
+            if blocks.len() != found.len() {
+                ok = false;
+                sink.fail("C16:rename:old-name-read", format!("{} renamed to {}: blocks listed for other files: {:?}", old.name, new.name, blocks.iter().map(|b| b.file.display().to_string()).collect::<Vec<_>>()), input.clone());
+            }
+            let position = rendered.position(first.lt);
+            if ok && !found.iter().any(|bl| bl.start_tag_start == position && bl.is_content_modified) {
+                ok = false;
+                sink.fail("C16:rename:modification-lost", format!("{} renamed to {} with line {line_no} edited: the block at {position:?} is not marked content-modified", old.name, new.name), input.clone());
+            }
+            sink.outcome(if ok { "rename:agree" } else { "rename:differ" });
         }
     }
     sink.nontrivial();
@@ -338,7 +412,7 @@ fn cli_slice(cfg: &Cfg, sink: &Sink) -> u64 {
 }
 
 pub fn run(cfg: &Cfg, sink: &Arc<Sink>) -> Report {
-    let mut report = Report::new("cases = 39 registered suffixes × 11 file-name shapes × 5 `-E` mappings (none, new extension, unused, identity, registered suffix remapped to another grammar) × {native probe file of the grammar's kit, the probe with one end tag removed, garbage} × {scan, diff, diff+glob}; when the reference lookup maps the name to the suffix's grammar the found blocks must equal the construction, when it maps to no grammar nothing may be found or raised; plus a CLI slice for `-E` parsing/validation; non-trivial = every case");
+    let mut report = Report::new("cases = 39 registered suffixes × 11 file-name shapes × 6 `-E` mappings (none, new extension, unused, identity, registered suffix remapped to another grammar, a whole file name without a dot) × {native probe file of the grammar's kit, the probe with one end tag removed, garbage} × {scan, diff, diff+glob}; when the reference lookup maps the name to the suffix's grammar the found blocks must equal the construction, when it maps to no grammar nothing may be found or raised; plus a CLI slice for `-E` parsing/validation; non-trivial = every case");
     report.assume("reference lookup: the shortest registered dot-suffix of the base name wins, else the whole base name; `-E from=to` substitutes `from`");
     // The hard-coded table must equal the implementation's registered suffixes.
     let mut registered: Vec<String> = REGISTERED.iter().map(|s| s.to_string()).collect();
@@ -365,12 +439,13 @@ pub fn run(cfg: &Cfg, sink: &Arc<Sink>) -> Report {
     for first in 0..k {
         for second in 0..k {
             for second_from_diff in [false, true] {
-                pairs.push(PairCase { first, second, second_from_diff });
+                pairs.push(PairCase { first, second, second_from_diff, renamed: false });
             }
+            pairs.push(PairCase { first, second, second_from_diff: false, renamed: true });
         }
     }
     let n = pairs.len();
-    report.phase(engine::explore("ordered pairs of names in one run", &format!("{n} cases: every ordered pair of {k} names (per registered suffix: two stems, `.bak`, dot-less, and for compound suffixes the look-alikes sharing the last component) × {{both walked, second named by the diff only}}; each file must be read exactly as it is read alone"), Grid { cases: pairs, check: |c: &PairCase, s: &Sink| check_pair(c, s) }, sink, cfg.threads, false));
+    report.phase(engine::explore("ordered pairs of names in one run", &format!("{n} cases: every ordered pair of {k} names (per registered suffix: two stems, `.bak`, dot-less, and for compound suffixes the look-alikes sharing the last component) × {{both walked, second named by the diff only, second renamed from the first name and edited}}; each file must be read exactly as it is read alone"), Grid { cases: pairs, check: |c: &PairCase, s: &Sink| check_pair(c, s) }, sink, cfg.threads, false));
     let n = cli_slice(cfg, sink);
     report.phase(crate::core::Phase { name: "CLI slice (-E parsing and validation)".into(), states: n, transitions: n, max_depth: 1, exhaustive: true, bound: "fixed list of flag spellings".into() });
     report
@@ -385,7 +460,7 @@ pub fn replay(cfg: &Cfg, input: &Value, sink: &Arc<Sink>) {
         let names = pair_names();
         let idx = |v: &Value| names.iter().position(|n| Some(n.name.as_str()) == v.as_str());
         match (idx(&pair[0]), idx(&pair[1])) {
-            (Some(first), Some(second)) => check_pair(&PairCase { first, second, second_from_diff: input["second_from_diff"].as_bool() == Some(true) }, sink),
+            (Some(first), Some(second)) => check_pair(&PairCase { first, second, second_from_diff: input["second_from_diff"].as_bool() == Some(true), renamed: input["renamed"].as_bool() == Some(true) }, sink),
             _ => sink.machinery("replay: unknown pair"),
         }
         return;
